@@ -7,7 +7,10 @@ mod oracle;
 mod report;
 mod rng;
 mod c03;
+mod c05;
+mod c06;
 mod c07;
+mod c09;
 mod c12;
 mod c13;
 mod c14;
@@ -79,6 +82,11 @@ fn real_main() {
             let p = o.prop.clone();
             match &replay_lines { Some(l) => c07::replay(&mut drv, &mut rep, l, &p), None => c07::run(&o, &mut drv, &mut rep, &p) }
         }
+        "C09" | "C10" => {
+            rep = Report::new(&o.prop, &o.tier, o.seed, "C09: (curve, scalar x, label, security parameter, RSA key, rng tape) per honest run = prove + verify + decrypt + wire round trip, plus serialised proofs with N slots; C10: one altered byte of a serialised proof / one context substitution / one forged proof of the Lean adversarial prover (strategy, slots, x, label, key, tape); non-trivial = every case (each runs at least 128 slots); distinct by request");
+            let p = o.prop.clone();
+            match &replay_lines { Some(l) => c09::replay(&o, &mut drv, &mut rep, l, &p), None => c09::run(&o, &mut drv, &mut rep, &p) }
+        }
         "C12" => {
             rep = Report::new("C12", &o.tier, o.seed, "(root key, chain code, prefix, path of u32 child numbers) per derive_xpub case, plus single derive_child_pubkey steps and Base58 strings; non-trivial = valid root and non-hardened path of 2..=255 components (stream `child`: valid parent, normal index); distinct by request");
             match &replay_lines { Some(l) => c12::replay(&mut drv, &mut rep, l), None => c12::run(&o, &mut drv, &mut rep) }
@@ -91,6 +99,14 @@ fn real_main() {
         "C13" => {
             rep = Report::new("C13", &o.tier, o.seed, "requests to math.rs functions: factorial_range(s,e), polynomials of degree 0..=24 with evaluation/derivative/commitment/Feldman cases, (point, order) sets for Birkhoff/Lagrange; non-trivial = all; distinct by request text");
             match &replay_lines { Some(l) => c13::replay(&mut drv, &mut rep, l), None => c13::run(&o, &mut drv, &mut rep) }
+        }
+        "C05" => {
+            rep = Report::new("C05", &o.tier, o.seed, "scenarios (kind, session ids, tape seeds, spliced instance, encoding) of the Endemic base OT: honest exchanges, different sids, cross-session substitution of message 1/2, special point encodings; non-trivial = non-degenerate tapes; distinct by scenario line");
+            match &replay_lines { Some(l) => c05::replay(&mut drv, &mut rep, l), None => c05::run(&o, &mut drv, &mut rep) }
+        }
+        "C06" => {
+            rep = Report::new("C06", &o.tier, o.seed, "scenarios (kind, session id, base-OT seed, parameters) of the all-but-one PPRF: honest build/eval, single-bit corruptions, cross-session substitution, adversarial sender grid; distinct by scenario line");
+            match &replay_lines { Some(l) => c06::replay(&mut drv, &mut rep, l), None => c06::run(&o, &mut drv, &mut rep) }
         }
         "C14" => {
             rep = Report::new("C14", &o.tier, o.seed, "(secret x, base point, transcript context, rng tape) for honest proofs, each followed by 17 single-field / single-bit mutations of (t,s), y, B and the context; non-trivial = x != 0; distinct by request");
